@@ -36,10 +36,10 @@ import (
 
 // ---------------------------------------------------------------- line oracle
 
-// vfE8OwnLines: can every finished body be given a whole line ("body\n", starting at offset 0 or right after
+// vfE8BodiesOwnLines: can every finished body be given a whole line ("body\n", starting at offset 0 or right after
 // a "\n") of some file such that no line is given twice? Equal bodies are interchangeable, so this is a count
 // per body. Returns the bodies that do not get a line.
-func vfE8OwnLines(tree map[string][]byte, finished [][]byte) []string {
+func vfE8BodiesOwnLines(tree map[string][]byte, finished [][]byte) []string {
 	have := map[string]int{}
 	for _, c := range tree {
 		for len(c) > 0 {
@@ -635,7 +635,7 @@ func TestVerifToFileLines(t *testing.T) {
 			}
 		}
 		tree := vfE8LTree(root)
-		missing := vfE8OwnLines(tree, fins)
+		missing := vfE8BodiesOwnLines(tree, fins)
 		if geni != "" {
 			missing = vfE8OwnRecords(tree, fins) // bodies may be empty / contain "\n": exact record form
 		}
